@@ -224,8 +224,71 @@ pub fn inject(rng: &mut Rng, prog: &Prog, class: &str) -> Option<(Vec<Tok>, usiz
     None
 }
 
+/// A valid program in which ONE quantity is just beyond a round number (17, 33, 65, 101, 129, 257): the number of
+/// parenthesised sub-expressions, of statements in a body, of procedures, of local variables, of parameters, of
+/// array dimensions, of aliases in a chain, of nested blocks.  A limit, cap or counter at such a number shows.
+pub fn scale_doc(rng: &mut Rng, k: usize) -> String {
+    // the quantity and the number cycle with `k` (every combination comes up in a run of a few hundred cases)
+    let n = [17usize, 33, 65, 101, 129, 257][(k / 8 + k) % 6] + rng.below(3);
+    let mut t = String::new();
+    match k % 8 {
+        0 => {
+            t.push_str("proc work(ref x: int) {\n");
+            for k in 0..n / 2 { t.push_str(&format!("  x := (x + {}) * 3;\n", k)); }
+            t.push_str("}\nproc main() {\n  var y: int;\n  y := 0;\n");
+            for k in 0..(n - n / 2) { t.push_str(&format!("  y := (y - {}) + 2;\n", k)); }
+            t.push_str("  work(y);\n}\n");
+        }
+        1 => {
+            t.push_str("proc main() {\n  var y: int;\n  y := 0;\n");
+            for k in 0..n { t.push_str(&format!("  y := y + {};\n", k)); }
+            t.push_str("}\n");
+        }
+        2 => {
+            for k in 0..n { t.push_str(&format!("proc p{}(a: int) {{ printi(a + {}); }}\n", k, k)); }
+            t.push_str("proc main() {\n");
+            for k in 0..n { t.push_str(&format!("  p{}({});\n", k, k)); }
+            t.push_str("}\n");
+        }
+        3 => {
+            t.push_str("proc main() {\n");
+            for k in 0..n { t.push_str(&format!("  var v{}: int;\n", k)); }
+            for k in 0..n { t.push_str(&format!("  v{} := {};\n", k, k)); }
+            t.push_str(&format!("  printi(v{});\n}}\n", n - 1));
+        }
+        4 => {
+            let m = n.min(70);
+            t.push_str("proc many(");
+            t.push_str(&(0..m).map(|k| format!("a{}: int", k)).collect::<Vec<_>>().join(", "));
+            t.push_str(&format!(") {{ printi(a{}); }}\nproc main() {{\n  many(", m - 1));
+            t.push_str(&(0..m).map(|k| format!("{}", k)).collect::<Vec<_>>().join(", "));
+            t.push_str(");\n}\n");
+        }
+        5 => {
+            let m = n.min(40);
+            t.push_str(&format!("type deep = {}int;\nproc main() {{\n  var d: deep;\n  d{} := 1;\n}}\n", "array [2] of ".repeat(m), "[1]".repeat(m)));
+        }
+        6 => {
+            t.push_str("type t0 = int;\n");
+            for k in 1..n { t.push_str(&format!("type t{} = t{};\n", k, k - 1)); }
+            t.push_str(&format!("proc main() {{\n  var x: t{};\n  x := 1;\n}}\n", n - 1));
+        }
+        _ => {
+            let m = n.min(60);
+            t.push_str(&format!("proc main() {{\n  var x: int;\n  {}x := 1;{}\n}}\n", "{ ".repeat(m), " }".repeat(m)));
+        }
+    }
+    t
+}
+
 pub fn gen_c03(rng: &mut Rng, n: usize, out: &mut Vec<String>) {
     for i in 0..n {
+        if i % 20 == 5 {
+            let t = scale_doc(rng, i / 20);
+            out.push(format!("SPECDIAG {}", hex_str(&t)));
+            out.push(format!("NEW {}", hex_str(&t)));
+            out.push(format!("PUB {}", hex_str(&t)));
+        }
         let prog = gen_prog::gen(rng, 3, 4, 3);
         let lo = Layout { comment_pct: if i % 3 == 0 { 10 } else { 0 }, comment_gaps: None, compact: rng.chance(1, 3) };
         let text = gen_prog::layout(rng, &prog.toks, &lo).0;
